@@ -629,5 +629,71 @@ class ScrubbedLines(Part):
         return res
 
 
+class WithOtherOptions(Part):
+    name = "with_every_other_option"
+    desc = "word lines (no address, secret or AS number in them) under every combination of the other features (addresses anonymized / undone / off, secrets, AS numbers) and every entry point: the same output as with words alone"
+
+    LINES = ["hostname zurich-core-rtr1", " description uplink to ZURICH pop", "snmp-server location Zurich2, rack 7", "xzurichx",
+             "interface Ethernet1", "zurich zurich-access-list"]
+
+    def __init__(self, tier, seed):
+        self.tier, self.seed = tier, seed
+
+    def cases(self):
+        return [{"ip": ip, "pwd": p, "asn": a, "entry": e} for ip in ("off", "anonymize", "undo") for p in (False, True)
+                for a in (False, True) for e in ("FileAnonymizer", "anonymize_files", "main")]
+
+    def _run(self, case, root, tag):
+        from netconan.anonymize_files import FileAnonymizer, anonymize_files
+
+        text = "".join(l + "\n" for l in self.LINES)
+        kw = dict(anon_pwd=case["pwd"], anon_ip=case["ip"] == "anonymize", undo_ip_anon=case["ip"] == "undo", salt="saltForTest",
+                  sensitive_words=["zurich"], as_numbers=["65001"] if case["asn"] else None)
+        with seams.capture_logs(), seams.capture_stdio():
+            if case["entry"] == "FileAnonymizer":
+                out = io.StringIO()
+                FileAnonymizer(**kw).anonymize_io(io.StringIO(text), out)
+                return out.getvalue()
+            import os
+
+            src, dst = os.path.join(root, "i%s.cfg" % tag), os.path.join(root, "o%s.cfg" % tag)
+            with open(src, "w") as f:
+                f.write(text)
+            if case["entry"] == "anonymize_files":
+                anonymize_files(src, dst, **kw)
+            else:
+                from netconan.netconan import main
+
+                main(["-w", "zurich", "-s", "saltForTest", "-i", src, "-o", dst] + {"off": [], "anonymize": ["-a"], "undo": ["-u"]}[case["ip"]]
+                     + (["-p"] if case["pwd"] else []) + (["-n", "65001"] if case["asn"] else []))
+            with open(dst) as f:
+                return f.read()
+
+    def run(self, case):
+        import shutil
+
+        res = Res()
+        root = seams.scratch_dir("c10o")
+        try:
+            ref = self._run({"ip": "off", "pwd": False, "asn": False, "entry": "FileAnonymizer"}, root, "r")
+            got = self._run(case, root, "g")
+            seams.restore_globals()
+            res.evals += len(self.LINES)
+            res.nt(tuple(sorted(case.items())))
+            res.out(got == ref)
+            reserved = {r.lower() for r in builtin_reserved()}
+            for ln, g, r in zip(self.LINES, got.split("\n"), ref.split("\n")):
+                if norm_ws(g) != norm_ws(r):
+                    left = [t for t in g.split() if "zurich" in t.lower() and t.lower() not in reserved]
+                    res.violation("%s|with-other-options" % ("listed-word-survives" if left else "word-output-depends-on-other-features"),
+                                  "%s, addresses %s, secrets %s, AS %s: %r -> %r, with words alone %r" % (
+                                      case["entry"], case["ip"], case["pwd"], case["asn"], ln, g, r), case)
+                    break
+        finally:
+            shutil.rmtree(root, ignore_errors=True)
+        res.samples.append(case)
+        return res
+
+
 def parts(tier, seed):
-    return [ListsPart(tier, seed), SecretsPart(tier, seed), SeedPart(tier, seed), HistoryPart(tier, seed), OwnOutputWords(tier, seed), SecondAnonymizer(tier, seed), HashCollisions(tier, seed), ScrubbedLines(tier, seed)]
+    return [ListsPart(tier, seed), SecretsPart(tier, seed), SeedPart(tier, seed), HistoryPart(tier, seed), OwnOutputWords(tier, seed), SecondAnonymizer(tier, seed), HashCollisions(tier, seed), ScrubbedLines(tier, seed), WithOtherOptions(tier, seed)]
